@@ -3,8 +3,10 @@
 //! Case k depends on (seed, workload, k) only, so any case can be replayed alone.
 
 mod ctx;
+mod p_cli;
 mod p_filters;
 mod p_history;
+mod p_kytea;
 mod p_model;
 mod p_score;
 mod p_sentence;
@@ -73,6 +75,11 @@ fn main() {
         "C10" => p_train::run_c10(&mut ctx, from, to),
         "C11" => p_train::run_c11(&mut ctx, from, to),
         "C12" => p_train::run_c12(&mut ctx, from, to),
+        "C17" => p_kytea::run_c17(&mut ctx, from, to),
+        "C19tool" => p_cli::run_c19tool(&mut ctx, from, to),
+        "C20p" => p_cli::run_c20p(&mut ctx, from, to),
+        "C20e" => p_cli::run_c20e(&mut ctx, from, to),
+        "C11cli" => p_cli::run_c11cli(&mut ctx, from, to),
         "C02x" => p_sentence::run_c02x(&mut ctx, from, to),
         "C02r" => p_sentence::run_c02r(&mut ctx, from, to),
         "C03" => p_sentence::run_c03(&mut ctx, from, to),
